@@ -25,7 +25,9 @@ import (
 
 func TestMain(m *testing.M) {
 	code := m.Run()
-	stopWG.Wait()
+	// in-process servers still shutting down (a follower's Stop waits out its
+	// reconnect sleep: ~35 s in total) end with the process; the driver removes
+	// the work directory
 	os.Exit(code)
 }
 
@@ -954,7 +956,7 @@ func TestC15_Matrix(t *testing.T) {
 		cs["leader"].Label("table:" + ci.Source)
 	}
 	cs["leader"].Note("command table: %d names enumerated at run time", len(e.table))
-	ev.Rapid("matrix", ev.Pick(2, 3))
+	ev.Rapid("matrix", ev.Pick(1, 2))
 	rapid.Check(t, func(rt *rapid.T) {
 		runMatrix(rt, e, nil)
 	})
